@@ -8,10 +8,14 @@ import (
 
 	"verif/fw"
 	"verif/props/c01"
+	"verif/props/c02"
+	"verif/props/c03"
 )
 
 var registry = map[string]func(fw.Config, *fw.Rec){
 	"C01": c01.Run,
+	"C02": c02.Run,
+	"C03": c03.Run,
 }
 
 func main() {
